@@ -93,6 +93,8 @@ def c20_case(draw):
                 tricky_names=draw(st.sampled_from([False, False, True])),
                 player_order=draw(st.sampled_from([0, 0, 1, 2, 3, 4])),
                 cap=draw(st.booleans()), scaled=draw(st.booleans()),
+                ps_header=draw(st.sampled_from(
+                    [None, None, 'Game', 'Zoom Hand', 'Home Game Hand'])),
                 eol=draw(st.sampled_from(['as_rendered', 'as_rendered',
                                           'no_trailing_newline',
                                           'one_trailing_newline', 'crlf',
@@ -222,6 +224,11 @@ def check(case, stats):
             # a "Cap" table whose cap is above every stack (no effect)
             rec['cap'] = 2 * max(rec['stacks'])
             stats.count('class:full_tilt_cap_table')
+        if site == 'pokerstars' and case.get('ps_header'):
+            # the first line names the kind of table: 'Hand', the older
+            # 'Game', 'Zoom Hand', 'Home Game Hand'
+            rec['ps_header'] = case['ps_header']
+            stats.count('class:pokerstars_header_' + case['ps_header'])
         if site == 'ipoker' and case.get('player_order'):
             rec['player_order'] = case['player_order']
             stats.count('class:ipoker_players_in_any_order')
